@@ -23,6 +23,9 @@ type RRead struct {
 	EndRel bool   `json:"end_rel,omitempty"` //
 	Len    int64  `json:"len"`               // requested length (> 0); with LenRel: file size + Len (clamped to >= 1)
 	LenRel bool   `json:"len_rel,omitempty"`
+	// Again: the read is issued for the name of the previous read once more, after the file under that name (when it is
+	// a regular file inside logs/) was replaced by another file with other content (1), or removed (2)
+	Again int `json:"again,omitempty"`
 }
 
 type ReadCase struct {
@@ -105,6 +108,17 @@ func runRead(c ReadCase) *pbt.Result {
 		target := filepath.Join(logs, name) // lexical resolution of the name under the logs directory
 		rel, rerr := filepath.Rel(logs, target)
 		outside := rerr != nil || rel == ".." || strings.HasPrefix(rel, "../")
+		if r.Again > 0 && !outside {
+			if st, err := os.Stat(target); err == nil && st.Mode().IsRegular() && !strings.HasSuffix(name, "/") && !strings.Contains(name, "\x00") {
+				must(os.Remove(target)) // what retention, an external rotation job or an operator does
+				if r.Again == 1 {
+					must(os.WriteFile(target, fileBody(fmt.Sprintf("REPLACED-%d", i), int(st.Size())/2+17), 0o644))
+					classes["file-replaced-between-two-reads-of-its-name"] = true
+				} else {
+					classes["file-removed-between-two-reads-of-its-name"] = true
+				}
+			}
+		}
 		before, berr := os.ReadFile(target)
 		fsize := int64(len(before))
 		end, length := r.End, r.Len
@@ -190,13 +204,18 @@ func drawRead(t *rapid.T) ReadCase {
 			r.Len = rapid.Int64Range(1, 6000).Draw(t, "len")
 		}
 		c.Reads = append(c.Reads, r)
+		if rapid.IntRange(0, 3).Draw(t, "again?") == 0 {
+			r2 := r
+			r2.Again = rapid.IntRange(1, 2).Draw(t, "again")
+			c.Reads = append(c.Reads, r2)
+		}
 	}
 	return c
 }
 
 var specRead = pbt.Register(pbt.Spec[ReadCase]{
 	Prop: "C17", Name: "read-window",
-	Rule:  "a fresh home with files of generated sizes (ASCII and multi-byte UTF-8 lines alternating) inside logs/ (plain, empty, nested, the logger's current file) and outside it (home/secret.txt, home/whatap.conf, a sibling directory); 1-10 Read(name, endpos, length) calls with names from a catalogue of 34 templates (inside, unreadable, and names with .. that resolve outside logs/), end positions negative / 0 / around the file size / beyond / extreme, lengths 1.. around the size .. extreme; oracle: a name that resolves lexically outside <home>/logs returns nil; otherwise nil or Text == content[Before:Before+len(Text)] with len(Text) <= length; non-trivial = at least one non-empty window served and at least one name pointing at an existing file outside logs/; distinct by case",
+	Rule:  "a fresh home with files of generated sizes (ASCII and multi-byte UTF-8 lines alternating) inside logs/ (plain, empty, nested, the logger's current file) and outside it (home/secret.txt, home/whatap.conf, a sibling directory); 1-10 Read(name, endpos, length) calls with names from a catalogue of 34 templates (inside, unreadable, and names with .. that resolve outside logs/), end positions negative / 0 / around the file size / beyond / extreme, lengths 1.. around the size .. extreme; one read in four is repeated right away after the file under that name was replaced by another file or removed; oracle: a name that resolves lexically outside <home>/logs returns nil; otherwise nil or Text == content[Before:Before+len(Text)] with len(Text) <= length; non-trivial = at least one non-empty window served and at least one name pointing at an existing file outside logs/; distinct by case",
 	Quick: 1500, Thorough: 60000,
 	Draw: drawRead,
 	Run:  runRead,
